@@ -75,13 +75,16 @@ struct Case {
     iso: Vec<Option<u32>>,
     flow: Vec<Option<f64>>,
     brk: Vec<Option<u32>>,
+    /// per resource: a throttling flow rule (rate per second, max queueing ms): build() may hold the caller
+    /// (virtual sleep) before it returns; a queued-then-admitted entry is a passed entry like any other
+    thr: Vec<Option<(f64, u32)>>,
     t0: u64,
     ops: Vec<Op>,
 }
 
 impl Case {
     fn to_json(&self) -> Value {
-        json!({"nres": self.nres, "iso": self.iso, "flow": self.flow, "brk": self.brk, "t0": self.t0,
+        json!({"nres": self.nres, "iso": self.iso, "flow": self.flow, "brk": self.brk, "throttling": self.thr, "t0": self.t0,
             "ops": self.ops.iter().map(|o| match o {
                 Op::Enter(r, i, b, ty) => json!(["enter", r, i, b, ty]),
                 Op::Exit(i, e) => json!(["exit", i, e]),
@@ -95,7 +98,9 @@ fn gen_case(rng: &mut Rng, base: u64, long: bool) -> Case {
     let mut iso = vec![];
     let mut fl = vec![];
     let mut brk = vec![];
+    let mut thr = vec![];
     for _ in 0..nres {
+        thr.push(if rng.chance(1, 5) { Some((*rng.pick(&[2.0, 10.0, 50.0]), *rng.pick(&[0u32, 50, 500, 2000]))) } else { None });
         iso.push(if rng.chance(1, 3) { Some(rng.range(1, 4) as u32) } else { None });
         fl.push(if rng.chance(1, 3) { Some(*rng.pick(&[0.0, 1.0, 3.0, 6.5])) } else { None });
         brk.push(if rng.chance(1, 5) { Some(rng.range(1, 2) as u32) } else { None });
@@ -123,6 +128,7 @@ fn gen_case(rng: &mut Rng, base: u64, long: bool) -> Case {
         iso,
         flow: fl,
         brk,
+        thr,
         t0: base + rng.below(2000),
         ops,
     }
@@ -190,16 +196,21 @@ fn run_case(case: &Case, inbound: &mut Ledger) -> Outcome {
             )
             .unwrap();
         }
+        let mut frules = vec![];
         if let Some(t) = case.flow[i] {
-            flow::load_rules_of_resource(
-                n,
-                vec![Arc::new(flow::Rule {
-                    resource: n.clone(),
-                    threshold: t,
-                    ..Default::default()
-                })],
-            )
-            .unwrap();
+            frules.push(Arc::new(flow::Rule { resource: n.clone(), threshold: t, ..Default::default() }));
+        }
+        if let Some((rate, maxq)) = case.thr[i] {
+            frules.push(Arc::new(flow::Rule {
+                resource: n.clone(),
+                threshold: rate,
+                control_strategy: flow::ControlStrategy::Throttling,
+                max_queueing_time_ms: maxq,
+                ..Default::default()
+            }));
+        }
+        if !frules.is_empty() {
+            flow::load_rules_of_resource(n, frules).unwrap();
         }
         if let Some(t) = case.brk[i] {
             cb::load_rules_of_resource(
@@ -243,6 +254,9 @@ fn run_case(case: &Case, inbound: &mut Ledger) -> Outcome {
                     .with_traffic_type(if *inb { TrafficType::Inbound } else { TrafficType::Outbound })
                     .with_batch_count(*batch)
                     .build();
+                // a throttling rule may have held the caller (virtual sleep): the statistic slots ran after that
+                let now = VClock::now_ms();
+                let started = now_before;
                 first_event.get_or_insert(now);
                 if *inb { n_in += 1 } else { n_out += 1 }
                 if *batch > 1 {
@@ -257,7 +271,7 @@ fn run_case(case: &Case, inbound: &mut Ledger) -> Outcome {
                             inbound.add(now, PASS, *batch as u64);
                             inbound.in_flight += 1;
                         }
-                        open.push((e, *r, *inb, *batch, now));
+                        open.push((e, *r, *inb, *batch, started));
                     }
                     Err(_) => {
                         n_block += 1;
